@@ -17,7 +17,7 @@
 //
 // The canonical state of a history is the list of cleanly completed effects
 // (that is what the oracle proves the runtime is equivalent to), refined by
-// the template and fault kind of the last operation; BFS de-duplicates on it.
+// the fault kind of the last operation; BFS de-duplicates on it.
 package c05
 
 import (
@@ -40,6 +40,7 @@ func init() {
 const prelude = `
 (in-package 'p)
 (set 'pa 0)
+(set 'a 0)
 (set 'b 0)
 (set 'v (vector))
 (set 'm (sorted-map))
@@ -671,7 +672,7 @@ func run(r *core.Run) {
 				return
 			}
 			if collect {
-				key := doneKey(nd) + "#" + templates[t.o.Tpl].name + "#" + t.o.Fault.Kind
+				key := doneKey(nd) + "#" + t.o.Fault.Kind
 				mu.Lock()
 				if _, ok := states[key]; !ok {
 					nh := history{Ops: append(append([]op(nil), t.h.Ops...), t.o), Done: nd}
@@ -696,16 +697,16 @@ func run(r *core.Run) {
 	}
 	sort.Strings(keys)
 	entries2 := []string{"LoadString", "LoadProgram", "Eval", "FunCall"}
-	tpls2 := []int{0, 4, 6, 8} // top, in-handler, nested load, tail loop
+	tpls2 := []int{0, 8} // top, tail loop
 	if r.Thorough() {
-		tpls2 = allTpls()
+		tpls2 = []int{0, 4, 6, 8} // top, inside a handler, nested load with in-package, tail loop
 	}
 	alpha2 := opsAlphabet(1, entries2, tpls2)
-	if !r.Thorough() {
-		// quick: three effect kinds at depth 2
+	{
+		// depth 2 uses a sub-alphabet of effect kinds: set and append! (quick), + defun (thorough)
 		var keep []op
 		for _, o := range alpha2 {
-			if e := o.Effects[0]; e == 0 || e == 2 || e == 4 {
+			if e := o.Effects[0]; e == 0 || e == 4 || (r.Thorough() && e == 2) {
 				keep = append(keep, o)
 			}
 		}
